@@ -794,4 +794,4 @@ MANIFEST = {
     'design_ref': 'DESIGN.md 3/C14',
 }
 MANIFEST['note'] += (' Also decided here (necessary conditions shared between properties or added after the independent '
-                     'change rounds, DESIGN.md 8.7): selector/network/port conversions (from C12), signedness of mirror fields the daemon reads, from_ipaddr source.')
+                     'change rounds, DESIGN.md 8.7): selector/network/port conversions (from C12), signedness of mirror fields the daemon reads, from_ipaddr source. Rounds 7-8: constant-table lookups by get() or [] alike.')
